@@ -609,8 +609,9 @@ static void client_fault_run(FILE *f, jval *sc)
 		event_base_loop(base, EVLOOP_NONBLOCK);
 		while ((fd = accept(lfd, NULL, NULL)) >= 0) {
 			progressed = 1;
-			if (cfd < 0) { cfd = fd; set_nonblock(cfd); cidx++; got = 0; sent = 0; cli_eof = 0; }
-			else { int keep = cfd; cfd = fd; raw_close_abort(); cfd = keep; }   /* never two at once: reset the newcomer */
+			/* the library has one connection at a time: a newcomer means the previous one is gone */
+			if (cfd >= 0) raw_close_abort();
+			cfd = fd; set_nonblock(cfd); cidx++; got = 0; sent = 0; cli_eof = 0;
 		}
 		if (cfd >= 0) {
 			while ((r = read(cfd, buf, sizeof(buf))) > 0) { got += (int)r; progressed = 1; }
